@@ -39,7 +39,8 @@ FUZZ = {"quick": {"runs": 1500, "campaigns": [("empty", 0), ("seeded", 1)]},
         "thorough": {"runs": 40000, "campaigns": [("empty", 0), ("empty", 1)] + [("seeded", 2 + i) for i in range(6)]}}
 ENGINE = "hypothesis"
 TECHNIQUE = ("stateful property-based testing (Hypothesis RuleBasedStateMachine over successive assignments in mixed formats, partial "
-             "updates and rejected inputs) against a dict reference model observed through ode/grad")
+             "updates and rejected inputs) against a dict reference model observed through ode/grad; plus coverage-guided fuzzing "
+             "(atheris/libFuzzer through fuzz_one_input) of whole assignment histories with the same oracle")
 LEVEL_TEXT = ("Exploration over assignment histories: the reference model is a plain name->value dict; every accepted form, permutation "
               "and subset is generated, and the binding is observed through evaluations after every step. Right level: mis-binding "
               "depends on the order and format of earlier assignments (string keys vs symbol keys in the same map), i.e. on histories.")
